@@ -71,6 +71,7 @@ impl ExecutorStateArc {
         }
     }
 
+    #[cfg_attr(feature = "Verif_Hooks", track_caller)]
     pub fn lock(&self) -> LockResult<MutexGuard<'_, ExecutorState>> {
         self.arc.lock()
     }
